@@ -18,7 +18,7 @@ Oracle (only what the statement says):
  * CKR_OK never reports more than was announced, nothing is written beyond the reported length, and on
    CKR_BUFFER_TOO_SMALL / errors nothing beyond the announced length (canary slack behind the announced size; exact-size
    buffers otherwise, where ASan's red zone is the monitor)."""
-import sys, os, random, shutil
+import sys, os, random, shutil, time
 sys.path.insert(0, os.path.join(os.path.dirname(os.path.abspath(__file__)), '..', 'vlib'))
 from harness import main, Part, pmap, SAN_ENV
 from p11client import Exec, Died, Hang, mkconf
@@ -81,8 +81,17 @@ class Worker:
         s.job = job; s.part = part; s.ck = ck = job['ck']; s.rnd = random.Random(job['seed'])
         s.d = os.path.join(job['scratch'], 'w%d' % job['seed']); shutil.rmtree(s.d, ignore_errors=True); os.makedirs(s.d)
         p = job['paths'][job['cfg']]; conf = mkconf(s.d, job['backend'])
-        s.x = Exec(p['exe'], p['lib'], conf, ck, env=dict(SAN_ENV), stderr=f'{s.d}/stderr.log', trace=f'{s.d}/trace.jsonl')
-        x = s.x; assert x.call('C_Initialize', locking='os')['rv'] == 0
+        for attempt in range(6):      # the shared executor binary may be re-linked by a concurrent build: retry the start-up (harness robustness)
+            x = None
+            try:
+                x = Exec(p['exe'], p['lib'], conf, ck, env=dict(SAN_ENV), stderr=f'{s.d}/stderr.log', trace=f'{s.d}/trace.jsonl')
+                r = x.call('C_Initialize', locking='os'); assert r['rv'] == 0, r
+                break
+            except (OSError, Died) as e:
+                if x is not None: x.kill()
+                if attempt == 5 or (isinstance(e, Died) and e.rc not in (2, 126, 127, -9, -15)): raise
+                time.sleep(1 + attempt)
+        s.x = x
         s.slot = x.call('C_GetSlotList', count=8)['slots'][-1]
         assert x.call('C_InitToken', slot=s.slot, pin=SO_PIN.hex(), label=b'c12'.hex())['rv'] == 0
         s.keeper = x.call('C_OpenSession', slot=s.slot)['h']; s.twin = x.call('C_OpenSession', slot=s.slot)['h']
